@@ -40,3 +40,16 @@ Fixpoint ordered (stored : bool) (h : list sev) : bool :=
   | SNotify :: r => stored && ordered stored r
   | _ :: r => ordered stored r
   end.
+
+(* ---- shutdown() before the loop has been entered ----
+   serveThreaded() returns before the worker threads run their loops (they are started by the acceptor thread); a
+   shutdown() issued in that window stores the flag and notifies while no loop is polling yet.  SyncImpl::run enters
+   with "while (!shutdown_) runOnce()": the flag is looked at before the first poll.  [before] holds what happened
+   before the thread entered the loop (no poll returns there), [after] what happens from then on.
+   [clear = true] is the variant that resets the flag on entry ("a reactor that has been shut down can be run again"). *)
+Definition start (clear : bool) (l : loop) : loop :=
+  if clear then mkLoop false (wake l) (other l) (handled l) Waiting
+  else if flag l then mkLoop (flag l) (wake l) (other l) (handled l) Exited
+  else l.
+Definition srun_from (clear : bool) (before after : list sev) : loop :=
+  fold_left sstep after (start clear (fold_left sstep before loop_init)).
